@@ -330,7 +330,7 @@ theorem for_cleanup_on_error {ld : Loader} {fuel env ids e body what pos s v m p
   simp only [eval] at h
   cases hr : evalFor ld fuel env ids e body what pos s with
   | ok a s1 => rw [hr] at h; cases h
-  | fail f s1 => rw [hr] at h; cases h
+  | fail f s1 => rw [hr] at h; cases f <;> cases h
   | err v1 m1 p1 t1 s1 =>
     rw [hr] at h
     cases h
